@@ -50,6 +50,7 @@ type BridgeCfg struct {
 	NoPriceFor []string // oracle price names missing from genesis (the others are present)
 	ExecFeePaid int64   // gas cost (wei) the relayer reports for an executed batch; 0 = 3
 	ExecFeePaidStr string // ... as a decimal string (values beyond int64), "" = ExecFeePaid
+	RcptUpperPrefix bool // withdrawals name their recipient with the prefix 0X (admitted like 0x)
 	ParamsMod func(p *mhubtypes.Params) // applied to the genesis params last
 	ParamChanges [][2]string // governance parameter changes (key, JSON value) of the mhub2 subspace offered as op Param(i)
 	DepUnlisted bool // deposits may name a destination chain on which the token is not listed (the deposit then fails as a whole)
@@ -926,6 +927,9 @@ func (b *Bridge) doSend(in *hub.Instance, g *bridgeGhost, op engine.Op, pre *vie
 	u, ai, fi := op.I[0], op.I[1], op.I[2]
 	amt, fee := b.Cfg.Amounts[ai], b.Cfg.Fees[fi]
 	rcpt := hub.HexAddr(fmt.Sprintf("rcpt%d", u))
+	if b.Cfg.RcptUpperPrefix {
+		rcpt = "0X" + rcpt[2:]
+	}
 	msg := mhubtypes.NewMsgSendToExternal(mhubtypes.ChainID(ch), b.Usr[u], rcpt, sdk.NewInt64Coin(d, amt), sdk.NewInt64Coin(d, fee))
 	r := in.DeliverMsg(msg)
 	st.Obs = fmt.Sprint(r.OK())
@@ -1625,7 +1629,7 @@ func init() {
 			{Name: "104 validators with registered keys (101 of them unbonded candidates)", Spec: NewBridge(many), Cfg: ecm},
 		}, bridgeAssumptions(cfg)
 	}))
-	Register("C10", MultiRunner(func(tier string) ([]MultiCase, []string) {
+	c10base := MultiRunner(func(tier string) ([]MultiCase, []string) {
 		cfg, ec := bridgeCfgFor("C10", tier)
 		// batches that time out and are rebuilt: nonces must stay unique and gap-free across cancellations
 		to := cfg
@@ -1709,7 +1713,30 @@ func init() {
 			{Name: "started from a genesis file with two pending Minter batches (sequence counter 7)", Spec: NewBridge(gi), Cfg: ecg},
 			{Name: "two withdrawals of one transaction, one cancelled", Spec: NewBridge(sh), Cfg: ecs},
 			{Name: "a pool of more than 100 transfers of one token, amounts differing by six orders of magnitude", Spec: NewBridge(big), Cfg: ecb2}}, bridgeAssumptions(cfg)
-	}))
+	})
+	Register("C10", func(tier string) *Runner {
+		b := c10base(tier)
+		return &Runner{Replay: b.Replay, Run: func(o RunOpts) Output {
+			out := b.Run(o)
+			if len(out.Violations) > 0 || out.InternalError != "" {
+				return out
+			}
+			outcomes := map[string]string{}
+			for _, cs := range c10HugeCases() {
+				res, v := c10RunHuge(hub.New(), cs)
+				outcomes[cs.Name] = res
+				if v != nil && len(out.Violations) == 0 {
+					out.Violations = append(out.Violations, engine.Found{Violation: *v, Reproduced: 5})
+				}
+			}
+			if cov, ok := out.Evidence["coverage"].(map[string]interface{}); ok {
+				cov["huge_fee_cases"] = outcomes
+				cov["huge_fee_rule"] = "a 24-decimals token, fees of about 2^250 .. 2^255 external units whose sum exceeds 256 bits: the requested batch is still the set of the highest-fee unbatched transfers"
+			}
+			out.Summary += fmt.Sprintf(" huge_fee_cases=%d", len(outcomes))
+			return out
+		}}
+	})
 	for _, p := range []string{"C04", "C12"} {
 		prop := p
 		Register(prop, MultiRunner(func(tier string) ([]MultiCase, []string) {
@@ -1787,7 +1814,17 @@ func init() {
 					}
 				}
 			}
+			// withdrawals to Minter and ethereum whose recipient is spelled with the prefix 0X
+			up := cfg
+			up.RcptUpperPrefix = true
+			up.Users = 1
+			up.Ops = opsSet("Next", "NextTimeout", "Send", "Cancel", "ReqBatch", "Exec")
+			up.SendChains = []string{"minter", "ethereum"}
+			up.SendDenoms = []string{"hub"}
+			up.Fees = up.Fees[:1]
+			up.Seeds = [][]engine.Op{{}, {engine.OpN("Next", 5)}}
 			cases := []MultiCase{{Name: "bridge histories", Spec: NewBridge(cfg), Cfg: ec},
+				{Name: "recipients spelled with the prefix 0X", Spec: NewBridge(up), Cfg: ecd},
 				{Name: "started from a genesis file with two transfers waiting in ethereum's pool", Spec: NewBridge(gp), Cfg: ecd},
 				{Name: "token migrated to a new contract while a transfer towards the old one is pending", Spec: NewBridge(rp), Cfg: ec},
 				{Name: "the listings of one denom share one token id (6 / 18 / 18 decimals)", Spec: NewBridge(du), Cfg: ec},
